@@ -32,9 +32,26 @@ def he_specs(ctx):
     return specs
 
 
+def far_basin_specs(ctx):
+    """Hard bounds far wider than the plausible box, optimum and start ~1e4 plausible half-widths out, narrow basin: the incumbent has large
+    coordinates in length-scale units while the logged points around it are close together (fine mesh)."""
+    from .. import gen
+    rng = ctx.sub_rng("c15far")
+    specs = []
+    for _ in range(3 if ctx.quick else 20):
+        D = rng.choice([2, 2, 3])
+        sp = gen.make_spec(rng, D=D, mode="det", geom="farbasin", cons=None, opt_loc="inside", target="cauchy")
+        sp["c_abs"] = [rng.choice([-1, 1]) * round(rng.uniform(1.5e4, 6e4), 3) for _ in range(D)]
+        sp["w_abs"] = [rng.choice([0.3, 0.1, 0.03]) for _ in range(D)]
+        sp["options"] = {"max_fun_evals": rng.choice([150, 200])}
+        specs.append(sp)
+    return specs
+
+
 def checks(ctx, rep):
     if getattr(ctx, "_c15_extra", True) and not getattr(ctx, "_replaying", False):
         runlevel.with_extra(ctx, "c15he", lambda: he_specs(ctx))
+        runlevel.with_extra(ctx, "c15far", lambda: far_basin_specs(ctx))
         # runs with LinAlgError injected into GP.fit (C16's pool): the surrogate must stay conditioned on the selected set through the retries
         from . import c16
         _meta, faulted = c16.fault_pool(ctx)
@@ -123,11 +140,13 @@ def checks(ctx, rep):
                             ok = False
                             break
                 if ok:
-                    ds = [dist[i] for i in idxs]
-                    if any(b < a for a, b in zip(ds, ds[1:])):
+                    # judged in the length-scaled metric computed by the harness (differences first); relative slack 1e-6 for rounding
+                    dr = e.get("dist_ref") or dist
+                    ds = [dr[i] for i in idxs]
+                    if any(b < a * (1 - 1e-6) for a, b in zip(ds, ds[1:])):
                         viol("ordered_by_distance", SITE_N, f"training set not ordered by distance: {ds[:6]}")
-                    rest = [dist[i] for i in range(n) if i not in set(idxs)]
-                    if rest and ds and min(rest) < max(ds):
+                    rest = [dr[i] for i in range(n) if i not in set(idxs)]
+                    if rest and ds and min(rest) < max(ds) * (1 - 1e-6):
                         viol("nearest", SITE_N, f"a logged point at distance {min(rest)} is left out while one at {max(ds)} is in the training set")
                     nmin, nmax = int(e["n_min"]), int(e["n_max"])
                     if not (min(nmin, n) <= len(X) <= min(nmax, n)):
